@@ -711,6 +711,11 @@ impl SpannedExpr {
     // may be selected), which would otherwise yield an unsized value where the checker
     // promised a sized one.  Must only be called on expressions that passed the check.
     pub fn fix_mux_widths<'a>(&mut self, widths: &'a HashMap<&'a str, WireWidth>, constants: &WireValues) {
+        // the checked width, taken before the sub-expressions are rewritten
+        let mux_width = match *self.expr {
+            Expr::Mux(_) => self.get_width_and_check(widths, constants).ok(),
+            _ => None,
+        };
         match *self.expr {
             Expr::BinOp(_, ref mut left, ref mut right) | Expr::Concat(ref mut left, ref mut right) => {
                 left.fix_mux_widths(widths, constants);
@@ -733,11 +738,9 @@ impl SpannedExpr {
             },
             Expr::Constant(_) | Expr::NamedWire(_) | Expr::Error => {},
         }
-        if let Expr::Mux(_) = *self.expr {
-            if let Ok(WireWidth::Bits(width)) = self.get_width_and_check(widths, constants) {
-                let inner = self.clone();
-                *self.expr = Expr::BitSelect { from: inner, low: 0, high: width };
-            }
+        if let Some(WireWidth::Bits(width)) = mux_width {
+            let inner = self.clone();
+            *self.expr = Expr::BitSelect { from: inner, low: 0, high: width };
         }
     }
 
